@@ -23,7 +23,7 @@ def main(argv):
                     f = getattr(f, part)
                 cache[func] = f
             r = f(*args, **kwargs)
-            if hasattr(r, "_asdict") or isinstance(r, tuple):
+            if hasattr(r, "_asdict") or isinstance(r, tuple) or hasattr(r, "__next__"):
                 r = list(r)
             out[i] = json.dumps(r, ensure_ascii=False)
         except Exception as e:
